@@ -254,8 +254,10 @@ def normalize_url(
     has_protocol = PROTOCOL_RE.match(url)
 
     # Ensuring scheme so parsing works correctly
+    # NOTE: same default protocol as `canonicalize_url`, so both agree on
+    # what the default port of a url without scheme is
     if not has_protocol:
-        url = "http://" + url
+        url = "https://" + url
 
     # NOTE: an invalid port is only reported when accessed
     try:
@@ -297,8 +299,8 @@ def normalize_url(
         hostname = decode_punycode_hostname(hostname).lower()
 
     # Dropping :80 & :443 when they are the default port of the scheme
-    # NOTE: a url without scheme was given the http scheme above ('//x' aside)
-    if (port == 80 and scheme in ("http", "")) or (port == 443 and scheme == "https"):
+    # NOTE: a url without scheme was given the https scheme above ('//x' aside)
+    if (port == 80 and scheme == "http") or (port == 443 and scheme in ("https", "")):
         port = None
 
     # Normalizing the path
